@@ -52,6 +52,16 @@ Theorem C10_conc_participant_ids_distinct :
 Proof. exact conc_participant_ids_distinct. Qed.
 Print Assumptions C10_conc_participant_ids_distinct.
 
+(* C10 under concurrent creations / joins / departures: two session objects that still own their numeric id never
+   share it; an owned id is never recyclable and was issued by the generator *)
+Theorem C10_conc_session_ids_distinct :
+  ∀ progs σ i1 R1 i2 R2, N.of_nat (length σ) < two32 →
+  let st := sched_run true (cinit progs) σ in
+  k_heap st !! i1 = Some R1 → k_heap st !! i2 = Some R2 → holds st i1 R1 → holds st i2 R2 →
+  (r_id R1 = r_id R2 → i1 = i2) ∧ r_id R1 ∉ g_reuse (k_ids st) ∧ r_id R1 ≤ g_cur (k_ids st).
+Proof. exact conc_session_ids_distinct. Qed.
+Print Assumptions C10_conc_session_ids_distinct.
+
 (* the invariant itself, for every reachable state (what the four theorems above are projections of) *)
 Theorem C07_conc_invariant :
   ∀ progs σ, N.of_nat (length σ) < two32 → cinv (N.of_nat (length σ)) (sched_run true (cinit progs) σ).
